@@ -66,3 +66,40 @@ Theorem C08_closed : forall a b v, I16 a -> I16 b ->
   exists z, v = VInt z /\ I16 z.
 Proof. exact int_ops_closed. Qed.
 Print Assumptions C08_closed.
+
+(* ---- conversions from floating point (Proofs/FloatToInt.v): floor plus a range check, for every bit pattern ---- *)
+From BL Require Import Base.Floats Proofs.FloatToInt.
+From Flocq Require Import IEEE754.Binary IEEE754.Bits.
+
+(* the general form used for Integer, line-number and byte-sized conversions: bounds below 2^24 *)
+Theorem C08_single_conversion : forall b lo hi cast, Z.abs lo <= 16777215 -> Z.abs hi <= 16777215 ->
+  float_to_int32 b lo hi cast =
+  (if Binary.is_finite 24 128 (b32_of_bits b) && (lo <=? floor_of (b32_of_bits b)) && (floor_of (b32_of_bits b) <=? hi)
+   then Ok (Z.min (floor_of (b32_of_bits b)) cast) else err E_Overflow).
+Proof. exact float_to_int32_spec. Qed.
+Print Assumptions C08_single_conversion.
+
+Theorem C08_double_conversion : forall b lo hi cast, Z.abs lo <= 16777215 -> Z.abs hi <= 16777215 ->
+  float_to_int64 b lo hi cast =
+  (if Binary.is_finite 53 1024 (b64_of_bits b) && (lo <=? floor_of64 (b64_of_bits b)) && (floor_of64 (b64_of_bits b) <=? hi)
+   then Ok (Z.min (floor_of64 (b64_of_bits b)) cast) else err E_Overflow).
+Proof. exact float_to_int64_spec. Qed.
+Print Assumptions C08_double_conversion.
+
+(* to Integer: the floor of the number if it lies in -32768..32767, OVERFLOW otherwise -- also for infinities and NaN *)
+Theorem C08_single_to_integer : forall b,
+  to_i16 (VSng b) = (if Binary.is_finite 24 128 (b32_of_bits b) && (-32768 <=? floor_of (b32_of_bits b)) && (floor_of (b32_of_bits b) <=? 32767)
+                     then Ok (floor_of (b32_of_bits b)) else err E_Overflow).
+Proof. exact single_to_integer. Qed.
+Print Assumptions C08_single_to_integer.
+
+Theorem C08_double_to_integer : forall b,
+  to_i16 (VDbl b) = (if Binary.is_finite 53 1024 (b64_of_bits b) && (-32768 <=? floor_of64 (b64_of_bits b)) && (floor_of64 (b64_of_bits b) <=? 32767)
+                     then Ok (floor_of64 (b64_of_bits b)) else err E_Overflow).
+Proof. exact double_to_integer. Qed.
+Print Assumptions C08_double_to_integer.
+
+(* never a wrapped or truncated out-of-range value *)
+Theorem C08_conversion_in_range : forall v z, to_i16 v = Ok z -> match v with VInt _ => True | _ => -32768 <= z <= 32767 end.
+Proof. exact to_i16_in_range. Qed.
+Print Assumptions C08_conversion_in_range.
